@@ -168,6 +168,8 @@ def c08_gen(rng, cid, tier):
     n_iters = rng.randint(0, 3)
     iters = {}        # id -> ('fresh'|'live'|'done', advances)
     next_it = 0
+    # some of the iterators belong to queries whose evaluation RAISES at the second result
+    raising = sorted(rng.sample(range(n_iters), rng.randint(1, n_iters))) if n_iters and rng.random() < 0.6 else []
     for _ in range(n):
         choices = ['es', 'es', 'ew']
         if depth > 0:
@@ -193,6 +195,9 @@ def c08_gen(rng, cid, tier):
             next_it += 1
         elif c == 'ia':
             i = rng.choice(live)
+            hot = [j for j in live if j in raising and iters[j][1] < 2]
+            if hot and rng.random() < 0.85:
+                i = rng.choice(hot)          # drive a raising evaluation to the point where it raises
             st, adv = iters[i]
             exhausted = 1 if (st == 'done' or adv >= 2) else 0
             ops.append(('ia', i, exhausted))
@@ -208,7 +213,10 @@ def c08_gen(rng, cid, tier):
     while depth > 0:
         ops.append((rng.choice(('lv', 'lvx')),))
         depth -= 1
-    return {'id': cid, 'ops': ops}
+    case = {'id': cid, 'ops': ops}
+    if raising:
+        case['raising'] = raising
+    return case
 
 
 def c08_sexp(case):
@@ -232,7 +240,7 @@ def c08_impl(case):
     import gc
     from dataclasses import dataclass
     from . import impl
-    from entity_query_language import symbol, let, an, entity, symbolic_mode, rule_mode
+    from entity_query_language import symbol, let, an, entity, symbolic_mode, rule_mode, predicate
     from entity_query_language.symbolic import in_symbolic_mode, SymbolicExpression
     from entity_query_language.enums import EQLMode
     impl.reset_library_state()
@@ -244,13 +252,25 @@ def c08_impl(case):
         a: int = 0
 
     objs = [S(1), S(2)]
+    objs2 = [S(1), S('s'), S(2)]
     x = let(S, objs)
     with symbolic_mode():
         # two of the four queries (the first and the third) take their variable's DOMAIN from another query: advancing
         # their iterator advances a nested evaluation (one evaluate() running inside another)
         queries = []
+
+        @predicate
+        def touchy(o):
+            if o.a == 's':
+                raise ValueError('user predicate raises')
+            return True
         for j in range(4):
-            if j % 2 == 0:
+            if j in (case.get('raising') or ()):
+                # the evaluation RAISES at its second result (a comparison of mixed data / a user predicate that raises):
+                # the advance that raises is one more path on which nothing about the mode may change
+                v = let(S, objs2)
+                queries.append(an(entity(v, v.a > 0)) if j % 2 == 0 else an(entity(v, touchy(v))))
+            elif j % 2 == 0:
                 inner = let(S, objs)
                 inner_q = an(entity(inner, inner.a > 0))
                 queries.append(an(entity(let(S, inner_q.evaluate()), x.a > 0)))     # a live result iterator as domain
@@ -431,6 +451,10 @@ def c14_gen(rng, cid, tier):
                 ops.append(('infself', c, rng.choice(ts)))
         elif r < 0.75:
             ops.append(('clr',))
+        elif r < 0.85:
+            # a no-domain query that is ABANDONED after k results, or a the(...) that may raise: neither may change what
+            # later queries range over (no observable of its own)
+            ops.append(('qa', c, rng.randint(0, 2)) if rng.random() < 0.7 else ('qthe', c))
         else:
             ops.append(('q', c))
     ops.append(('q', rng.randrange(n_cls)))
@@ -448,6 +472,8 @@ def c14_sexp(case):
             ops.append(('s', op[1]))
         elif op[0] == 'inf':
             ops += [('c', op[1])] * op[2]
+        elif op[0] in ('qa', 'qthe'):
+            continue                 # an abandoned / failed query is invisible to the registry
         else:
             ops.append(op)           # ('q', c) ('clr',) ('infself', c, t)
     return sexp(('reg', case['id'], ('classes',) + cl, ('ops',) + tuple(ops)))
@@ -530,6 +556,19 @@ def c14_impl(case):
                 for c in list(Variable._cache_.values()):
                     c.clear()
                 Variable._cache_.clear()
+            elif k == 'qa':
+                it = an(entity(let(built[op[1]]))).evaluate()
+                for _ in range(op[2]):
+                    if next(it, None) is None:
+                        break
+                it.close()
+            elif k == 'qthe':
+                from entity_query_language import the
+                from entity_query_language.failures import MultipleSolutionFound, NoSolutionFound
+                try:
+                    the(entity(let(built[op[1]]))).evaluate()
+                except (MultipleSolutionFound, NoSolutionFound):
+                    pass
             elif k == 'q':
                 res = list(an(entity(let(built[op[1]]))).evaluate())
                 outs.append(','.join(str(x) for x in sorted(ids.get(id(o), -1) for o in res)))
